@@ -87,43 +87,8 @@ def run(chk, F, tier):
 
 
 def run_r37d(chk, F):
-    from rules import c12c, c25c
+    from rules import c12c
     n, rec, aud = c12c.bounds_audit(chk, F, "R37d", "C37", CR, "the markup crate", "the highlighter panics")
     chk.floor("bounds-sensitive sites in the markup crate", n, 60)
-    table = panicsurface.load_table()
-    nsub = rs = au = 0
-    for bid in sorted(F.bodies):
-        b = F.bodies[bid]
-        if b.crate != CR or "::test" in bid or b.kind in ("const", "static", "promoted"):
-            continue
-        B = None
-        k = 0
-        for bi, blk in enumerate(b.blocks):
-            if blk[0]:
-                continue
-            for st in blk[1]:
-                if not (st[0] == "a" and st[2][0] == "bin" and st[2][1] in ("Sub", "SubWithOverflow")):
-                    continue
-                t = b.local_ty_str(st[1][0]) if len(st[1]) == 1 else ""
-                if not (t in ("usize", "u32", "u64") or t.startswith(("(usize", "(u32", "(u64"))):
-                    continue
-                k += 1
-                nsub += 1
-                key = "C37|%s|uint-sub#%d" % (bid, k)
-                if B is None:
-                    B = bounds.Bounds(F, b)
-                loc = b.loc(st[3] if len(st) > 3 else None)
-                why = c25c._sub_ok(B, bi, st[2][2], st[2][3])
-                if why:
-                    rs += 1
-                    chk.ok("R37d", key, {"rule": "R37d", "site": loc, "kind": "uint-sub", "verdict": "guard recognised", "reason": why})
-                elif key in table:
-                    au += 1
-                    chk.ok("R37d", key, {"rule": "R37d", "site": loc, "kind": "uint-sub", "verdict": "audited", "reason": table[key]})
-                else:
-                    chk.violation("R37d", key, "unsigned subtraction without a recognised guard (minuend >= subtrahend) or an audited entry in the "
-                                               "markup crate: for some description text it underflows -- a panic in debug builds, a wrapped length/offset "
-                                               "and an out-of-range highlight (or a slice panic) in release builds", loc, witness={"kind": "uint-sub"})
+    nsub, _, _ = c12c.uint_sub_audit(chk, F, "R37d", "C37", CR, "the markup crate", "the highlighter panics or emits an out-of-range item")
     chk.floor("unsigned subtractions in the markup crate", nsub, 20)
-    chk.unit("unsigned subtractions discharged by a recognised guard", rs)
-    chk.unit("unsigned subtractions discharged by the audited table", au)
